@@ -56,3 +56,16 @@ Proof. by move=> *; apply: m1_scale. Qed.
 End C12.
 Print Assumptions C12_marginal_means_add_up_given_ExpLaws.
 Print Assumptions C12_mean_homogeneous_given_ExpLaws.
+
+(* ------------------------------------------------------------------------------------------------
+   Unconditional over the reals: the laws E0-E2 (and positivity) are theorems about the real matrix
+   exponential mexp (analysis/MExp.v: entrywise limit of the exponential series), so the statements
+   above hold for the matrix exponential itself, not only "given ExpLaws". *)
+From PG Require Import analysis.Rstruct analysis.RSums analysis.MExp analysis.MExpLaws.
+
+Theorem C12_marginal_means_add_up_real :
+  forall n (a : 'rV[R]_n) (S R1 R2 : 'M[R]_n) (t : R),
+    m1 (fun n : nat => @mexp n) a S (R1 + R2) t
+    = m1 (fun n : nat => @mexp n) a S R1 t + m1 (fun n : nat => @mexp n) a S R2 t.
+Proof. by move=> *; apply: real_m1_additive. Qed.
+Print Assumptions C12_marginal_means_add_up_real.
